@@ -37,7 +37,7 @@ Let N : Num A := M5.nx (dx D).
 Definition NumS (sq : A -> A) : Num A :=
   mkNum A (zero N) (one N)
         (fun x y => st (add N x y)) (fun x y => st (sub N x y)) (fun x y => st (mul N x y)) (fun x y => st (div N x y))
-        (neg N) (nabs N) (fun x => st (sq x)) (ltb N) (leb N) (eqb N) (fun z => st (of_Z N z)) (is_nan N).
+        (fun x => st (neg N x)) (nabs N) (fun x => st (sq x)) (ltb N) (leb N) (eqb N) (fun z => st (of_Z N z)) (is_nan N).
 Definition NumXS (sq : A -> A) : M5.NumX A :=
   M5.mkNumX A (NumS sq) (M5.neg_inf (dx D)) (M5.fmax (dx D)) (fun x => st (sq x)).
 
